@@ -27,14 +27,20 @@ def cases(tier, seed):
     return stratified_sample(universe(), lambda c: c["stratum"], 3000 if tier == "quick" else 0, seed)
 
 
-PY_CLASSES = {
-    "escaped_braces": "py.escaped_braces",
-    "dotted_conv": "py.dotted_with_conversion",
-    "dotted_spaced_spec": "py.spaced_format_spec",
-    "spaced_spec": "py.spaced_format_spec",
-    "explicit_sqlfluff_index": "py.explicit_sqlfluff_index",
-    "dotted_spec": "py.dotted_with_spec",
-}
+# Literal snapshot of the documented dot-notation rewrite ("{foo.bar} => {sqlfluff[foo.bar]}").  A case is in
+# class py.dot_notation_regex iff THIS rewrite, applied to the source text, already fails to reproduce
+# str.format semantics - a property of the input alone, so it identifies the listed defect by mechanism
+# and any other python-templater failure (or a changed rewrite) is still reported.
+DOT_RX = r"{([^:}]*\.[^:}]*)(:\S*)?}"
+
+
+def dot_regex_explains(source, ctx, ref):
+    import re
+
+    try:
+        return re.sub(DOT_RX, r"{sqlfluff[\1]\2}", source).format(**ctx) != ref
+    except Exception:
+        return True
 
 
 def run_case(case):
@@ -43,13 +49,12 @@ def run_case(case):
     counters = {}
     classes = set()
     if case["kind"] == "py":
-        for f in r["features"]:
-            if f in PY_CLASSES:
-                classes.add(PY_CLASSES[f])
         try:
             ref = tmpl_ref.pyfmt_render(src, r["context"])
         except Exception:
             return {"status": "skip", "counters": {"model_invalid": 1}}
+        if dot_regex_explains(src, r["context"], ref):
+            classes.add("py.dot_notation_regex")
     else:
         ref, params = tmpl_ref.placeholder_render(src, r["style"], r["values"])
         counters["params_matched"] = len(params)
